@@ -6,6 +6,8 @@ import time
 
 sys.path.insert(0, os.path.dirname(os.path.dirname(os.path.abspath(__file__))))
 sys.setrecursionlimit(10000)
+import warnings
+warnings.filterwarnings('ignore', message='.*indicates index type mismatch.*')
 
 
 def args():
